@@ -115,6 +115,10 @@ func TestVerifC36(t *testing.T) {
 	rng := v.r.RNG
 	// corpus: the witness of the defect repaired by fixes/C36-*: a saved chunk kept its pending key
 	for _, l := range []string{vCfg(5, 1000000), "addlocal 1 c", "setmin 2 1", "abs", "reopen", "abs", "rate 1",
+		// boundary: a chunk with expiry 0 is never tracked by the expiry map: it stays pending in memory
+		// and on disk across minimum advances and restarts
+		vCfg(5, 1000000), "vremote 13", "addlocal 1 c", "setmin 4", "abs", "getbytes 0 13", "reopen", "abs", "setmin 9 13", "reopen", "abs",
+		vCfg(5, 1000000), "addlocal 13 n", "setmin 2", "addlocal 1 n", "reopen", "abs", "setmin 7", "reopen", "abs",
 		vCfg(5, 1000000), "vremote 4", "setcert 4 g", "addlocal 2 c", "setmin 5 4", "reopen", "abs", "gather", "setmin 20", "reopen", "abs"} {
 		o.step(l)
 	}
@@ -127,7 +131,13 @@ func TestVerifC36(t *testing.T) {
 		nops := 6 + rng.Intn(18)
 		for k := 0; k < nops; k++ {
 			i := 1 + rng.Intn(len(v.sut.u.chunks))
-			valid := v.sut.u.get(i).valid
+			if rng.Chance(8) {
+				i = vZero
+			}
+			if i == vBig && !rng.Chance(15) {
+				i = 1 + rng.Intn(vValid) // the 260 KiB chunk is slow to verify: keep it rare here
+			}
+			valid := v.sut.u.get(i).cert != nil // has an honest certificate
 			switch x := rng.Intn(100); {
 			case x < 22:
 				c := "n"
